@@ -416,6 +416,10 @@ func c02BadNames(ctx *Ctx, c c02Case, typ string, steps []step, parents []*Node,
 		fields[string(fs.Get(i).Name())] = true
 	}
 	cands := []string{"zzNoSuchField", "birth_date", "valueUs", "timezone", "precision", "valueQuantity", "managingOrganization", "given"}
+	// a resource type name below the root is an ordinary (non-element) name, not a type filter
+	if len(steps) > 0 {
+		cands = append(cands, typ, "Patient", "Resource")
+	}
 	// the JSON spelling of a populated choice child
 	for _, name := range p.KidOrder {
 		k := p.Kids[name][0]
